@@ -1103,6 +1103,29 @@ func prevCode(secret string, n uint64, digits, algo int) string {
 var boundaryOffsNs = []int64{-2e9, -1e9, -1, 0, 1, 1e9, 2e9}
 
 // totpDisplay: C02 – what the token shows at an instant.
+// totpParity: where no HOTP code exists for a secret / hash (generation
+// returns an error), there is no TOTP code either.
+func (s *sim) totpParity(a *acct, secret string, n uint64, digits, algo int, tc instant) {
+	var herr, terr error
+	var got string
+	rh := guarded(func() {
+		_, herr = otp.GenerateHOTP(fresh(secret), n, &otp.Param{Digits: otp.Digits(digits), Algorithm: otp.Algorithm(algo)})
+	})
+	if rh.panicked || rh.tripped || herr == nil {
+		return
+	}
+	param := a.verParam()
+	if param == nil {
+		return
+	}
+	rt := guarded(func() { got, terr = otp.GenerateTOTP(fresh(secret), goTime(tc, a.Zone, a.Mono), param) })
+	verifh.Count("oracle.totp-must-fail-where-hotp-fails", 1)
+	if !rt.panicked && !rt.tripped && terr == nil {
+		s.nontriv = true
+		s.fail("totp==hotp(floor(t/p))", "GenerateTOTP", "code-where-hotp-fails", fmt.Sprintf("GenerateHOTP(counter=%d) fails (%v) but GenerateTOTP(t=%d, period=%d) returns %q for the same secret and parameters", n, herr, tc.Sec, a.Period, got))
+	}
+}
+
 func (s *sim) totpDisplay(a *acct, e *Event) {
 	p := periodEff(a.Period)
 	if e.Aimed {
@@ -1131,9 +1154,13 @@ func (s *sim) totpDisplay(a *acct, e *Event) {
 	want, okRef := refHOTP(a.tokSecret, n, digits, algo)
 	if !okRef {
 		verifh.Count("ref.generation-failed", 1)
+		s.totpParity(a, a.tokSecret, n, digits, algo, tc)
 		return
 	}
 	s.events++
+	if a.stored != a.tokSecret {
+		s.totpParity(a, a.stored, n, digits, algo, tc)
+	}
 	param := a.verParam()
 	if param != nil {
 		param.Skew = 0
